@@ -384,3 +384,5 @@ mut("text-push-at-block-length", "C03", "yrs/src/types/text.rs", "        let id
 mut("visited-shared-between-changed-types", "C11", T, "                        &mut HashSet::default(),", "                        &mut visited,", None, kind="benign-skip")
 mut("blocks-cursor-jumps-two", "C12", "yrs/src/id_set.rs", "                    self.current_index = Some(idx + 1);\n                    block", "                    self.current_index = Some(idx + 2);\n                    block", "delete-set")
 mut("blocks-cursor-benign-named", "C12", "yrs/src/id_set.rs", "                    self.current_index = Some(idx + 1);\n                    block", "                    let following = idx + 1;\n                    self.current_index = Some(following);\n                    block", "", kind="benign")
+mut("gc-scope-tests-block-start", "C13", "yrs/src/gc.rs", "                            start += len;\n                            if start > delete_item.end {\n                                break;\n                            } else {", "                            if start >= delete_item.end {\n                                break;\n                            } else {\n                                start += len;", "gc-scope", also=["C15"])
+mut("gc-scope-benign-named-end", "C13", "yrs/src/gc.rs", "                            start += len;\n                            if start > delete_item.end {", "                            start += len;\n                            let limit = delete_item.end;\n                            if start > limit {", "", kind="benign", also=["C15"])
